@@ -196,6 +196,19 @@ func (server *SugarDB) handleCommand(ctx context.Context, message []byte, conn *
 			return nil, err
 		}
 
+		if internal.IsWriteCommand(command, subCommand) {
+			// Keep the memory figure in step with collections that were modified in place.
+			keyFunc := command.KeyExtractionFunc
+			if ok && subCommand.KeyExtractionFunc != nil {
+				keyFunc = subCommand.KeyExtractionFunc
+			}
+			if keyFunc != nil {
+				if keys, kerr := keyFunc(cmd); kerr == nil && len(keys.WriteKeys) > 0 {
+					server.reconcileMemory(ctx, keys.WriteKeys)
+				}
+			}
+		}
+
 		verifhook.Yield("cmd.after_handler")
 		if internal.IsWriteCommand(command, subCommand) && !replay {
 			// Log the command under the database it was executed in (TCP and embedded callers alike).
